@@ -918,3 +918,10 @@ def run(idx, rep, tier):
     c06r2(k)
     for o in rep.obligations[before:]:
         o.rule = 'C01.R6'
+    # C01.R11: shared rule
+    from .c02 import r5 as _c02r5
+    rep.rule('C01.R11', 'receive handler cycle (= C02.R5): _recv_pkthdr -> _recv_packet -> _recv_pkthdr with no third handler that could skip bytes whose length field has not been authenticated; a packet that cannot be accepted ends the connection, it is never discarded and stepped over')
+    _before = len(rep.obligations)
+    _c02r5(k)
+    for o in rep.obligations[_before:]:
+        o.rule = 'C01.R11'
